@@ -1,3 +1,5 @@
+import ast
+
 import pyparsing
 from miasm.expression.expression import ExprInt, ExprId, ExprLoc, ExprSlice, \
     ExprMem, ExprCond, ExprCompose, ExprOp, ExprAssign, LocKey
@@ -35,8 +37,12 @@ T_INF = pyparsing.Suppress("<")
 T_SUP = pyparsing.Suppress(">")
 
 
-string_quote = pyparsing.QuotedString(quoteChar="'", escChar='\\', escQuote='\\')
-string_dquote = pyparsing.QuotedString(quoteChar='"', escChar='\\', escQuote='\\')
+# Names are printed with repr(): keep the quoted text as it is and read it back
+# as the Python string literal it is (escapes: \\, \', \n, \x01, ...)
+string_quote = pyparsing.QuotedString(quoteChar="'", escChar='\\', unquoteResults=False)
+string_dquote = pyparsing.QuotedString(quoteChar='"', escChar='\\', unquoteResults=False)
+string_quote.setParseAction(lambda t: ast.literal_eval(t[0]))
+string_dquote.setParseAction(lambda t: ast.literal_eval(t[0]))
 
 
 string = string_quote | string_dquote
